@@ -491,11 +491,23 @@ func c12R4(h H) {
 		}
 		_, bad := reachesReturnAvoiding(wh, nil, sets)
 		already := guardEdges(wh, true, func(v ssa.Value) bool { return readsField(v, spec[2]) })
-		if bad && len(already) > 0 {
+		// an informational header (1xx) is no commit: the branch taken only for codes up to 199
+		info := guardEdges(wh, true, func(v ssa.Value) bool {
+			bo, ok := v.(*ssa.BinOp)
+			if !ok {
+				return false
+			}
+			isCode := func(x ssa.Value) bool { p, ok := x.(*ssa.Parameter); return ok && p.Name() == "code" }
+			if c, ok := constInt(bo.Y); ok && isCode(bo.X) {
+				return (bo.Op == token.LEQ && c <= 199) || (bo.Op == token.LSS && c <= 200)
+			}
+			return false
+		})
+		if bad && (len(already) > 0 || len(info) > 0) {
 			// an early return on "already written" is the other legitimate shape
 			bad = false
 			for _, rt := range realReturns(wh) {
-				if !mustPass(wh, rt, sets) && !onlyVia(wh, rt, already) {
+				if !mustPass(wh, rt, sets) && !(len(already) > 0 && onlyVia(wh, rt, already)) && !(len(info) > 0 && onlyVia(wh, rt, info)) {
 					bad = true
 				}
 			}
